@@ -70,8 +70,8 @@ class FADE(Entry):
         return [[embed(f) for w in b["p"] for f in w], [embed(f) for w in b["t"] for f in w]]
 
     def concat(self, cfg, batches):
-        # (B, frames, 4) -> every frame its own one-frame waveform: same embedded rows
-        return {"p": [[f] for b in batches for w in b["p"] for f in w], "t": [[f] for b in batches for w in b["t"] for f in w]}
+        # all frames of all waveforms as ONE waveform per side: same embedded rows, same sums
+        return {"p": [[f for b in batches for w in b["p"] for f in w]], "t": [[f for b in batches for w in b["t"] for f in w]]}
 
     def samples(self, cfg, b):
         return None
